@@ -512,6 +512,25 @@ func registerL1Intrinsics() {
 		s, ok := progOf(in, a[0]).host.srcs[name.conc]
 		return TupleV{concStr(s), in.St.Bool(ok)}
 	}
+	intrinsics[recv+"PosOf"] = func(in *Interp, fn *ssa.Function, a []Value) Value {
+		name := a[1].(*Str)
+		off := a[2].(*sym.Term)
+		if name.kind != sConc {
+			in.fail("Prog.PosOf with symbolic file name")
+		}
+		var base int64 = -1
+		progOf(in, a[0]).host.fset.Iterate(func(f *token.File) bool {
+			if f.Name() == name.conc {
+				base = int64(f.Base())
+				return false
+			}
+			return true
+		})
+		if base < 0 {
+			in.fail("Prog.PosOf: unknown file %s", name.conc)
+		}
+		return in.St.Add(in.St.Int(base), off)
+	}
 	intrinsics[recv+"FileNames"] = func(in *Interp, fn *ssa.Function, a []Value) Value {
 		var names []string
 		for n := range progOf(in, a[0]).host.srcs {
@@ -534,6 +553,30 @@ func registerL1Intrinsics() {
 			in.fail("nd.LineOf: needle %q not found", needle.conc)
 		}
 		return in.St.Int(int64(1 + strings.Count(src.conc[:i], "\n")))
+	}
+	intrinsics[ndPkg+".LineStartOf"] = func(in *Interp, fn *ssa.Function, a []Value) Value {
+		src, needle := a[0].(*Str), a[2].(*Str)
+		if src.kind != sConc || needle.kind != sConc {
+			in.fail("nd.LineStartOf needs concrete arguments")
+		}
+		var holes []l1Hole
+		for _, hv := range in.sliceElems(a[1]) {
+			s := hv.(*StructV)
+			name := s.fields[0].(*Str)
+			val := s.fields[1].(*Str)
+			switch val.kind {
+			case sConc:
+				holes = append(holes, l1Hole{name: name.conc, alts: []string{val.conc}})
+			case sEnum:
+				holes = append(holes, l1Hole{name: name.conc, alts: val.alts})
+			}
+		}
+		i := strings.Index(src.conc, needle.conc)
+		if i < 0 {
+			in.fail("nd.LineStartOf: needle %q not found", needle.conc)
+		}
+		sub := substHoles(src.conc[:i], holes, map[int]int{})
+		return in.St.Int(int64(strings.LastIndex(sub, "\n") + 1))
 	}
 	intrinsics[ndPkg+".OffsetOf"] = func(in *Interp, fn *ssa.Function, a []Value) Value {
 		src, needle := a[0].(*Str), a[2].(*Str)
